@@ -487,6 +487,7 @@ impl<E: Elem> Interp<E> {
             "builder_abandon" | "intrusive_abandon" => "generate",
             "builder_extend" | "intrusive_extend" => "builder_extend",
             "consumer_abandon" | "zipx_plain_out" | "map_plain_out" => "fold",
+            "map_from_plain" | "zip_from_plain" => "generate",
             "iter_for_each" => "iter_fold",
             x => x,
         };
@@ -991,6 +992,26 @@ fn exec<E: Elem>(op: &str, vals: &mut Vec<Val<E>>, forms: &[String], arg: i64, m
             let pform = { let p = js(st, "pform"); if p.is_empty() { "own".to_string() } else { p.to_string() } };
             o.res = with_arr!(take(vals, 0), a => zipx_plain_out(a, left, &pform, ctx), bad());
             o
+        }
+        // plain (no drop glue) sources, tracked results: what has been built must be released when the closure panics
+        // (logged as `generate`: callback k gets index k and returns the element for slot k)
+        "map_from_plain" | "zip_from_plain" => {
+            let form = forms.first().map(|s| s.as_str()).unwrap_or("own").to_string();
+            Outcome::outs([with_len!(n, N => {
+                let mut p: GenericArray<u64, N> = GenericArray::generate(|i| i as u64);
+                let mut q: GenericArray<u64, N> = GenericArray::generate(|i| i as u64);
+                match (op, form.as_str()) {
+                    ("map_from_plain", "own") => p.map(|v| ctx.gen::<E>(v as usize)).wrap(),
+                    ("map_from_plain", "ref") => (&p).map(|v| ctx.gen::<E>(*v as usize)).wrap(),
+                    ("map_from_plain", "mut") => (&mut p).map(|v| ctx.gen::<E>(*v as usize)).wrap(),
+                    ("map_from_plain", _) => GenericArray::<E, N>::from_iter(Box::new(p).map(|v| ctx.gen::<E>(v as usize)).into_iter()).wrap(),
+                    (_, "own") => p.zip(q, |v, _w| ctx.gen::<E>(v as usize)).wrap(),
+                    (_, "ref") => (&p).zip(q, |v, _w| ctx.gen::<E>(*v as usize)).wrap(),
+                    (_, "mut") => p.zip(&mut q, |v, _w| ctx.gen::<E>(v as usize)).wrap(),
+                    (_, "refref") => (&p).zip(&q, |v, _w| ctx.gen::<E>(*v as usize)).wrap(),
+                    _ => GenericArray::<E, N>::from_iter(Box::new(p).zip(Box::new(q), |v, _w| ctx.gen::<E>(v as usize)).into_iter()).wrap(),
+                }
+            }, bad())])
         }
         "map_plain_out" => {
             let mut o = Outcome::new();
